@@ -325,6 +325,7 @@ class Model(object):
         self.conflict = None
         self.owners = {}       # GIR name -> owner-capable type {'name','sp','cname','registered','compound'}
         self.unspecified = []  # reasons
+        self.fn_items = {}
 
         I = self.cfg['I']
         typedef_tags = set()
@@ -451,6 +452,7 @@ class Model(object):
             claim(cands, cname)
             if cname in self.folded:
                 continue
+            self.fn_items[cname] = (it, cands)
             self.funcs[cname] = self._function(it, cands)
 
     @staticmethod
@@ -573,6 +575,25 @@ class Model(object):
         return {'placements': pl, 'why': 'plain function (neither the method nor the constructor rule applies); '
                                          'nesting under the longest-prefix type %s is optional' % (
                                              longest['name'] if longest else '-'), 'soft': longest is not None}
+
+    def method_copy_ok(self, cname, owner):
+        """A moved-to compatibility copy may be a <method> of `owner` only if the function's first
+        parameter is that type (of this namespace) and its name starts with the type's symbol
+        prefix (the copies exist for names like foo_texture / FooText, where the character after
+        the prefix is not an underscore)."""
+        it, cands = self.fn_items[cname]
+        if len(cands) != 1:
+            return True
+        if not it['params']:
+            return False
+        r1 = self.resolve(it['params'][0][0])
+        if r1[0] == 'ambiguous':
+            return True
+        if r1[0] != 'ours' or r1[1]['name'] != owner:
+            return False
+        if r1[1]['sp'] is None:
+            return True
+        return cands[0].startswith(r1[1]['sp'])
 
     def must_count(self):
         return (len(self.types) + len(self.consts) + len(self.folded) + len(self.absent) +
@@ -754,6 +775,11 @@ def compare(model, obs):
         if p['tag'] not in ('function', 'method', 'constructor'):
             bad.append(('func-kind', cname, p['tag'], 'function %s is described as <%s>' % (cname, p['tag'])))
             continue
+        for c in by_ident.get(cname, []):
+            if c['moved_to'] is not None and c['tag'] != 'function':
+                if c['tag'] != 'method' or not model.method_copy_ok(cname, c['owner']):
+                    bad.append(('copy-kind', cname, pl(c), 'compatibility copy of %s is a <%s> of %s, but the function does not '
+                                'take that type first or does not start with its prefix' % (cname, c['tag'], c['owner'])))
         if f['placements'] is None:
             continue
         got = (p['tag'], p['owner'], p['name'])
